@@ -9,19 +9,19 @@ TRUST = ("trusted base: TLC, the recorder/projector (harness/record.py, project.
 CHECKS = {
     "C02": ("model_checking", "6 C02", "TLC on the solve state machine (every limit value, deadline position and outcome sequence within bounds; P clauses are checked, never assumed) + trace validation of real solves on infeasible / unbounded families with limits and virtual deadlines; justification classes from an independent oracle", "TLA+ model checking + trace validation against GradFlow.tla"),
     "C05": ("model_checking", "6 C05", "every callback call of every traced solve is an Eval event with an in-box flag computed at user level against the user's bounds; clauses eval.inbox / accept.inbox / notify.inbox / return.inbox of GradFlow.tla are evaluated by TLC on each event", "trace validation against GradFlow.tla (+ MC of the loop)"),
-    "C06": ("model_checking", "6 C06", "terminal kinds are an invariant of the model (C06_TerminalKinds) and every Raise of a randomised configuration-product sweep is classified into the four deliberate kinds or Internal:<type>@<frame>; Return carries finiteness", "TLA+ model checking + trace validation of a configuration-product sweep"),
+    "C06": ("model_checking", "6 C06", "terminal kinds are an invariant of the model (C06_TerminalKinds); TauRule.tla (totality of the active-set rules) replayed on compute_tau; every Raise of a randomised configuration-product sweep is classified into the four deliberate kinds or Internal:<type>@<frame>; Return carries finiteness", "TLA+ model checking + trace validation of a configuration-product sweep"),
     "C07": ("fault_enumeration", "6 C07", "for baseline runs every position in the sequence of callback evaluations and of factorisations/solves gets one run with a transient failure there (quick: first 14 + stride), plus region-persistent failures; each trace is validated by TLC against the fault clauses of GradFlow.tla", "fault enumeration + trace validation against GradFlow.tla"),
     "C08": ("model_checking", "6 C08", "2-safety by self-composition: reference run and limited run share the oracle memo in one TLC model (every limit, every deadline position incl. inner Newton reads); real tuples (unlimited, limited) are validated together with shared interning, equal trial queries must give bit-identical answers; witness config shows the pre-fix behaviour violates", "self-composition model checking + twin trace validation"),
     "C09": ("model_checking", "6 C09", "self-composition MC (observers off vs any observer subset and display pattern) + validated tuples of real solves differing only in log level, display interval/clock pattern, callbacks, collect_path, report_rcond; compared bit-exactly via interned ids", "self-composition model checking + twin trace validation"),
     "C10": ("model_checking", "6 C10", "self-composition MC (first solve, second solve on the same object, fresh solve) + validated sequences of real solves in one process (reused solver after a different / faulted solve vs fresh solver)", "self-composition model checking + twin trace validation"),
     "C11": ("model_checking", "6 C11", "every Eval/Return/Raise event carries the set of caller-owned objects (x0, y0, bounds, weights, every object returned by a callback) whose value digest changed; twin runs fresh vs memoised return policy must be bit-identical", "trace validation (caller-owned digests) + twin trace validation"),
     "C12": ("model_checking", "6 C12", "counters, current point, path and model times are never logged: the spec computes them from the action sequence (Commit is a silent spec step) and the Return record must agree; MC proves the counter invariants over all outcome sequences incl. filter vetoes", "TLA+ model checking + trace validation (unlogged variables inferred by the spec)"),
-    "C15": ("model_checking", "6 C15", "MC of the four controllers over all accept/reject/fail sequences with lamb_max within reach; traced solves with injected failures and tiny lamb_max; exact.solves uses an independently computed implicit-Euler residual", "TLA+ model checking + trace validation"),
+    "C15": ("model_checking", "6 C15", "MC of the four controllers over all accept/reject/fail sequences with lamb_max within reach; traced solves with injected failures and tiny lamb_max; exact.solves uses an independently computed implicit-Euler residual; Controllers.tla (decision logic) replayed case by case on the real controller classes; TLC -simulate behaviours replayed through the real Solver.solve (loop driver)", "TLA+ model checking + trace validation"),
     "C16": ("model_checking", "6 C16", "MC over all six policies x multiplier-norm levels x filter histories; traced solves with all policies and starting multipliers 1e-8..1e8; rho used by each trial, solver rho at each callback and policy rho before/after each update are events", "TLA+ model checking + trace validation"),
     "C04": ("model_checking", "6 C04", "TransformFn.tla defines the internal problem from the change of variables and slack/offset embedding in exact integer arithmetic; TLC proves chain rule (exact central differences), round trips, start slack = clip, residual correspondence and zero padding over weights x row-kind pairs x points x multipliers; every case is replayed bit-for-bit through Transformation / evaluator in COO/CSR/CSC", "kernel TLA+ spec (exhaustive on an exact domain) + bit-exact conformance replay"),
     "C13": ("model_checking", "6 C13", "Residuals.tla defines augmented Lagrangian, residuals, active sets, implicit-Euler function and generalised Jacobian; TLC proves they are each other's exact derivatives (5-point stencils) and the projection / normal-cone characterisations; every case (all active sets) is replayed exactly on Iterate, ActiveSet, ImplicitFunc, ScaledImplicitFunc, keep_rows", "kernel TLA+ spec + exact conformance replay"),
     "C14": ("model_checking", "6 C14", "NewtonAlg.tla proves by Cramer's rule on integer data that the block-eliminated scaled formulation with back-substitution solves the standard semismooth Newton system for every active set (and exhibits the disagreement of the H(y) variant as a witness); each case is replayed through newton_method().step for 4 step solvers x {LU, GMRES, MINRES} x {Full, Simplified, ActiveSet} against the exact rational step", "kernel TLA+ spec (exact rational algebra) + conformance replay with solver tolerances"),
-    "C18": ("model_checking", "6 C18", "Filter.tla is finite on a KxK grid, so TLC covers all insertion histories of any length; every reachable state is one edge (before, pair, verdict, after) replayed on both filter classes under three order-preserving rank->float maps; end-to-end filter-policy traces are validated against the same operators in GradFlow.tla", "TLA+ model checking (all histories on a grid) + full transition-coverage replay + trace validation"),
+    "C18": ("model_checking", "6 C18", "Filter.tla is finite on a KxK grid, so TLC covers all insertion histories of any length; FilterInd.tla: Apalache establishes the antichain property as an inductive invariant over unbounded integers; every reachable state is one edge (before, pair, verdict, after) replayed on both filter classes under three order-preserving rank->float maps; end-to-end filter-policy traces are validated against the same operators in GradFlow.tla", "TLA+ model checking (all histories on a grid) + full transition-coverage replay + trace validation"),
     "C20": ("model_checking", "6 C20", "ScalingFn.tla transcribes frexp, row maxima of the column-prescaled Jacobian and the square-root column-sum equilibration in exact integer arithmetic; TLC checks the [1,2) / [1,4) normalisation over the whole domain (entries below one included); every case is replayed through scale.py and the predicate is evaluated with Fractions on the code's own weights", "kernel TLA+ spec (exhaustive on an exact domain) + exact conformance replay"),
     "C01": ("model_checking", "6 C01", "KKTAbs.tla: TLC proves InternalKKT => UserKKT for all internal class combinations (which user-level clauses a Return may be held to); every Optimal Return of a sweep over scalings x row kinds x solver configurations carries oracle classes of the user's problem at (x,y,d) and TLC evaluates UserKKT on it; IntegrationLoop.tla + the same validation for IntegrationSolver's Optimal results", "TLA+ model checking (design theorem) + trace validation of every Optimal return"),
     "C03": ("exploration", "6 C03", "seeded well-posed strictly convex QPs (hypotheses checked numerically per instance) under the default and the listed single-parameter variants must return Optimal within 2000 iterations; convergence is not decidable by a finite-state model, so this is exploration of observed executions (each also trace-validated against GradFlow.tla)", "generator-driven exploration + trace validation (clause wellposed.solved)"),
